@@ -43,15 +43,12 @@ theorem middlePieces_mirror (l new : Bits) (k : Nat) (ps : List Nat) :
       simp
 
 theorem replace_mirror (l old new : Bits) (a b : Nat) (count : Nat) (ba : Bool)
-    (hab : a ≤ b) (hb : b ≤ l.length) (hold : old ≠ []) (hlen : l.length ≤ 8192) :
+    (hab : a ≤ b) (hb : b ≤ l.length) (hold : old ≠ []) :
     replace_ .lsb0 l old new a b count ba
       = (replace_ .msb0 l.reverse old.reverse new.reverse a b count ba).map fun r => (r.1, r.2.reverse) := by
   have hf : findall_ .lsb0 l old a b none ba = .ok (findallMsb0 l.reverse old.reverse a b none ba) := by
     unfold findall_; dsimp only
-    apply findall_lsb0_chunks_eq_partial_s _ _ _ _ _ _ _ hab hb hold
-    · have : ¬ (b - a > max 8192 (old.length * 80) + old.length) := by omega
-      simp [multiChunk, chunkIncrement, this]
-    · simp [countAligned]
+    exact findall_fixed_chunks_eq_s _ (chunkIncrement_pos_s old) l old a b none ba hab hb hold
   have hf' : findall_ .msb0 l.reverse old.reverse a b none ba = .ok (findallMsb0 l.reverse old.reverse a b none ba) := rfl
   unfold replace_
   rw [hf, hf']
@@ -68,8 +65,7 @@ theorem replace_mirror (l old new : Bits) (a b : Nat) (count : Nat) (ba : Bool)
     congr 1
     simp
 
-theorem replaceOp_mirror (l old new : Bits) (start stop : Option Int) (count : Option Int) (ba : Bool)
-    (hlen : l.length ≤ 8192) :
+theorem replaceOp_mirror (l old new : Bits) (start stop : Option Int) (count : Option Int) (ba : Bool) :
     replaceOp .lsb0 l old new start stop count ba
       = (replaceOp .msb0 l.reverse old.reverse new.reverse start stop count ba).map fun r => (r.1, r.2.reverse) := by
   unfold replaceOp
@@ -88,7 +84,7 @@ theorem replaceOp_mirror (l old new : Bits) (start stop : Option Int) (count : O
       · simp only [hc, if_false]
         have hold' : old ≠ [] := by
           intro hh; apply hold; rw [hh]; rfl
-        exact replace_mirror l old new a b _ ba hb.1 hb.2 hold' hlen
+        exact replace_mirror l old new a b _ ba hb.1 hb.2 hold'
 
 /-- the `i`-th byte of `x`. -/
 def byteAt (x : Bits) (i : Nat) : Bits := (x.drop (8 * i)).take 8
@@ -199,7 +195,7 @@ theorem reversebytes_mirror (l : Bits) (a b : Nat) (hab : a ≤ b) (hb : b ≤ l
     simp only [List.length_take, List.length_drop, List.length_reverse]
     have : min (b - a) (l.length - a) = b - a := by omega
     rw [this]; exact h8
-  rw [setvalid_mirror l _ a b (by omega) (by omega), reverseBytesOf_reverse _ hlen, List.reverse_reverse]
+  rw [setvalid_mirror l _ a b, reverseBytesOf_reverse _ hlen, List.reverse_reverse]
 
 
 theorem byteswapPattern_msb0_len (sizes : List Nat) : ∀ (L : Bits) (x : Nat), x + 8 * sizes.sum ≤ L.length →
